@@ -165,6 +165,24 @@ def trace_leg(tag=""):
     return cached(tree_hash() + json.dumps(params, sort_keys=True), go)
 
 
+def obs_leg(nworkers, ntraces, nops, inst, seed, tag=""):
+    """leg V for the direct API: random histories recorded from the implementation, validated by TLC (LabObs.tla)"""
+    params = dict(kind="obs", nworkers=nworkers, ntraces=ntraces, nops=nops, inst=inst, seed=seed, tag=tag)
+
+    def go():
+        os.makedirs(os.path.join(BUILD, "run"), exist_ok=True)
+        cmds = []
+        for i in range(nworkers):
+            u = uuid.uuid4().hex[:6]
+            out = os.path.join(BUILD, "run", f"obs_{i}_{seed}_{tag}_{os.getpid()}_{u}.json")
+            cmds.append(([PY, os.path.join(HERE, "obs_worker.py"), str(ntraces), str(nops), inst[0], inst[1], str(seed * 1000 + i), out],
+                         {"VERIF_TAG": f"_{tag}_{os.getpid()}_{u}"}, out))
+        t0 = time.time()
+        shards = run_workers(cmds)
+        return dict(params=params, shards=shards, wall=time.time() - t0)
+    return cached(tree_hash() + json.dumps(params, sort_keys=True), go)
+
+
 def units_leg(inst, seed, env_extra=None, tag=""):
     params = dict(kind="units", inst=inst, seed=seed, env=env_extra, tag=tag)
 
@@ -223,6 +241,10 @@ def plan(prop, tier, seed):
             legs.append(lambda: lab_leg("LabPL", 1 if q else 2, 8 if q else 16, REALISTIC, seed))
             legs.append(lambda: lab_leg("LabPL", 2, 16, DECIMAL, seed, overrides=dict(DEC_OVR, Fracs="PL_FracsQuick", TUnits="QuickUnits"), tag="q2") if q
                         else lab_leg("LabPL", 2, 16, DECIMAL, seed, overrides=DEC_OVR, tag="dec"))
+    if prop in ("C01", "C02", "C03", "C10", "C11", "C17"):
+        legs.append(lambda: obs_leg(8 if q else 16, 40 if q else 250, 40 if q else 60, REALISTIC, seed))
+        if not q:
+            legs.append(lambda: obs_leg(16, 250, 60, DECIMAL, seed + 7, tag="dec"))
     if prop in ("C05", "C12", "C03", "C04", "C10", "C19"):
         if q:
             legs.append(lambda: lab_leg("LabSOL", 1, 8, REALISTIC, seed))
@@ -346,7 +368,7 @@ def conclude(prop, tier, seed, legs, wall):
                 sh["evaluated"] = {"C18": sum(sh["evaluated"].values())}
             summ["states"] += sh.get("distinct_states", 0)
             summ["transitions"] += sh["tlc"]["generated"] if "tlc" in sh else sh.get("transitions", 0)
-            summ["executed"] += sh["counts"].get("executed", 0) if leg["params"]["kind"] in ("lab", "recipe") else sh["evaluated"].get(prop, 0)
+            summ["executed"] += sh["counts"].get("executed", 0) if leg["params"]["kind"] in ("lab", "recipe", "obs") else sh["evaluated"].get(prop, 0)
             summ["skipped_behind_divergence"] += sh["counts"].get("skipped_unreachable", 0)
             summ["evaluated"] += sh["evaluated"].get(prop, 0)
             for vc in sh["violation_counts"]:
